@@ -92,11 +92,10 @@ CLAIMS = {
         text="Engine M shows on the MIR of the current tree that every control-flow path of MultiState::draw and BarState::draw that returns without reaching "
              "Drawable::draw / draw_to_term (rate-limited or hidden draw) writes no field of self and hands no mutable borrow of a field to any callee other than "
              "the limiter query, so skipped draws cannot move zombie_lines_count / last_line_count / orphan lines (all histories, all limiter verdicts). The exact "
-             "erase range of a painting draw and the rule that text lines are never counted are the C01/C19 inductive step. Thorough tier: Kani harnesses drive "
-             "println / clear / zombie reaping / suspend on a MultiState with 2-3 members from arbitrary accounting states against the draw_to_term contract.",
-        note="Quick tier = the frame condition only. The MultiState-level Kani harnesses need MultiState::draw end to end; CBMC's symbolic execution of it takes "
-             "longer than a quick run allows (thorough tier, may end inconclusive = exit 2). One recorded known finding (bottom alignment + shrink + text lines) "
-             "belongs to draw_to_term and is watched under C01.",
+             "erase range of a painting draw and the rule that text lines are never counted are the C01/C19 inductive step.",
+        note="Both registered tiers = the frame condition only. The MultiState-level Kani harnesses need MultiState::draw end to end; CBMC's symbolic execution "
+             "of it did not finish within an hour, they are kept in the unregistered tier `deep` (bin/check C03 --tier deep). What a painting multi draw does to the "
+             "screen is therefore NOT decided for this property beyond the draw_to_term step of C01/C19.",
         ref="4/C03, 8.2"),
     "C04": dict(
         technique=K,
@@ -105,7 +104,7 @@ CLAIMS = {
              "abandon*, message replaced for *_with_message, nothing but the erase for finish_and_clear); dropping an unfinished BarState performs its on_finish "
              "behaviour exactly once; dropping a finished (or explicitly cleared) one draws nothing.",
         note="ProgressStyle::format_state and DrawState::draw_to_term are replaced by their contracts (recorder / row-stack stubs; the contracts are the "
-             "subject of C10-C13 and C01/C19); BarState level, not through the Arc<Mutex> handle; finishing inside a MultiProgress is thorough-tier only.",
+             "subject of C10-C13 and C01/C19); BarState level, not through the Arc<Mutex> handle; finishing inside a MultiProgress is not decided (tier `deep`, does not finish).",
         ref="4/C04, 8.2"),
     "C06": dict(
         technique="MIR call-site analysis + path-wise symbolic execution of ProgressDrawTarget::drawable with SMT queries (z3 + cvc5); state equivalence by " + K,
@@ -116,8 +115,8 @@ CLAIMS = {
              "call history. Kani shows for hidden and non-tty bars that two symbolic numeric operations (u64 arguments), message/prefix, finish, abandon, println "
              "and suspend leave position / length / finished / message / prefix exactly as the reference model of the visible bar (C07) and reach neither a "
              "terminal method nor format_state (panicking stubs).",
-        note="Members of a hidden MultiProgress are covered by the gate analysis in the quick tier; their Kani harnesses (real MultiState::draw) are thorough-tier. "
-             "ProgressBar-level wrappers (e.g. set_tab_width's own early exits) are not executed by the quick tier.",
+        note="Members of a hidden MultiProgress are covered by the gate analysis only; their Kani harnesses (real MultiState::draw) do not finish (tier `deep`). "
+             "Of the ProgressBar-level wrappers only set_tab_width is executed (one harness through the real Arc<Mutex<BarState>>).",
         ref="4/C06, 8.2"),
     "C09": dict(
         technique=K,
@@ -127,18 +126,17 @@ CLAIMS = {
              "unknown / rate zero and never panics (pos/len over u64, averages <= 1e30); per_sec() is finite and >= 0; BarState::reset forgets the estimator in "
              "all three modes.",
         note="estimator_weight (powf) is replaced by an arbitrary but functional weight in [0,1] (CBMC does not finish powf): the exponential-average LAW "
-             "(15 s decay) is therefore NOT decided, only sign/finiteness/reset/totality; two-record histories and duration = elapsed + eta are thorough-tier.",
+             "(15 s decay) is therefore NOT decided, only sign/finiteness/reset/totality; two-record histories are thorough-tier; duration = elapsed + eta did not finish (tier `deep`).",
         ref="4/C09"),
     "C10": dict(
         technique="MIR panic-site scan with SMT path feasibility (z3 + cvc5) and native corpus replay for totality; fidelity by " + K,
         engine="mirsmt",
         text="Engine M shows on the MIR of the current tree that with_template / template / Template::from_str / from_str_with_tab_width / TabExpandedString::new "
              "contain no reachable diverging operation (panic call, unwrap/expect, overflow or bounds assert, indexing/slicing) -- for templates of ANY length and "
-             "content. Kani decides single parser transitions (one symbolic ASCII character after a concrete prefix per parser state), widths of 1..=6 symbolic "
-             "digits (Ok iff the value fits u16, and then equal to it), '{' + whitespace standing for itself with the surrounding literal text preserved, and the "
-             "part list of placeholder templates with escapes and newlines.",
+             "content. Kani decides the literal-state transitions (one symbolic ASCII character in the Literal and DoubleClose states) and executes templates of "
+             "concrete shape through the real parser: '{' + space / tab / CR standing for itself with the text before it kept before it, and '{{' '}}' escapes.",
         note="Totality rests on the listed std callees being total (String/Vec/char/parse; allocation failure outside the claim). Fidelity is bounded to short "
-             "templates (<= 2 literal letters either side); rendering order (concatenation in format_state) is covered by thorough-tier harnesses only.",
+             "templates of concrete shape (a symbolic character pushed into a String gives it a symbolic length and CBMC does not finish); the per-state transition harnesses, symbolic widths and the rendering order through format_state are kept in tier `deep` (they do not finish within an hour).",
         ref="4/C10, 8.2"),
     "C11": dict(
         technique="MIR data-flow extraction of every key arm of format_state, value equivalence by SMT (z3 + cvc5, QF_UFLIRA) with native replay; tick string and trackers by " + K,
@@ -149,7 +147,7 @@ CLAIMS = {
              "shows current_tick_str = tick % (n-1) / final string when finished (any u64 tick, 2..=6 strings) and that custom trackers are ticked exactly once "
              "with the post-update state on tick / set_length / inc_length / dec_length / unset_length / set_message / set_prefix and reset by reset().",
         note="Getters and formatters are uninterpreted in the equivalence (decided by C07, C09, C13, C15, C16); the rendered TEXT of a key end to end needs "
-             "format_state under CBMC, which does not finish (> 15 min per call): those harnesses are thorough-tier and may end inconclusive.",
+             "format_state under CBMC, which does not finish (> 15 min per call): those harnesses are kept in tier `deep`.",
         ref="4/C11, 8.2"),
     "C15": dict(
         technique=K,
@@ -175,8 +173,8 @@ CLAIMS = {
              "and advance the position by one per item; Read (read, read_vectored, read_to_string, read_exact), BufRead (fill_buf never counts, consume counts "
              "exactly), Write (write, write_vectored, flush), Seek (all modes; position := new offset) and the tokio AsyncRead (with a pre-filled ReadBuf), "
              "AsyncWrite, AsyncBufRead, AsyncSeek adaptors return exactly the inner result and move the position by exactly the transferred amount (wrapping u64).",
-        note="3 calls per history, buffers <= 8 bytes; AtomicPosition::allow replaced by 'refuse' (no redraw); rayon adaptors and futures Stream finishing are "
-             "outside the quick tier (rayon: concurrency, not modelled by Kani; Stream: thorough).",
+        note="3 calls per history, buffers <= 8 bytes; AtomicPosition::allow replaced by 'refuse' (no redraw); the quick iterator harness never exhausts the inner "
+             "iterator (exhaustion -> finish and futures Stream are thorough-tier); rayon adaptors are outside the claim (worker threads: not modelled by Kani).",
         ref="4/C17"),
     "C18": dict(
         technique="MIR panic-site scan with SMT path feasibility (z3 + cvc5) for the unwrap sites; fault injection by " + K,
@@ -184,10 +182,11 @@ CLAIMS = {
         text="Engine M shows for EVERY function of the library that no Result<(), io::Error> (the type of every draw / clear / terminal operation) is consumed "
              "by unwrap / expect or by a match whose Err arm panics, on any feasible path: a failing terminal cannot panic under the bar mutex or the MultiProgress "
              "lock (no poisoning). Kani injects a failure into terminal call k in 0..=15 (once or sticky) of one real draw_to_term (Err returned iff reached, "
-             "last_line_count untouched, no panic) and into the first (second) draw of tick / set_length / set_tab_width / println / suspend / finish / "
+             "last_line_count untouched, no panic) and into the first draw of tick / set_length / set_tab_width / println / finish / "
              "finish_and_clear / reset / forced draw on a BarState with pos/len over u64: no panic, logical state as without the failure, the next call paints.",
-        note="Fault index concrete per harness (dropping an io::Error of symbolic existence explodes under CBMC); MultiState-level fault harnesses are "
-             "thorough-tier; other ways to turn an error into a panic than unwrap/expect/match-arm (e.g. storing it) are outside the scan.",
+        note="Fault index concrete per harness and the limiter admits the failing draw (dropping an io::Error of symbolic existence explodes under CBMC); "
+             "MultiState-level and suspend fault harnesses do not finish (tier `deep`); other ways to turn an error into a panic than unwrap/expect/match-arm "
+             "(e.g. storing it) are outside the scan.",
         ref="4/C18, 8.2"),
 }
 
@@ -232,7 +231,7 @@ def main():
         ],
         "checks": checks,
         "not_applicable": na,
-        "notes": "Solver-based checking only. exit 0 = holds within the stated bounds; exit 1 + VIOLATION = replayed counter-example; exit 2 = inconclusive/broken (never reported as success). known_findings.json lists recorded defects and fixes.",
+        "notes": "Solver-based checking only. Harness tiers: quick < thorough < deep; `deep` harnesses are kept for reference (CBMC did not finish them within an hour) and are run by neither registered command. exit 0 = holds within the stated bounds; exit 1 + VIOLATION = replayed counter-example; exit 2 = inconclusive/broken (never reported as success). known_findings.json lists recorded defects and fixes.",
     }
     with open(os.path.join(VERIF, "MANIFEST.json"), "w") as f:
         json.dump(m, f, indent=1)
